@@ -86,14 +86,18 @@ func vRD_record(to *PID, message any) {
 	vRD_msg = append(vRD_msg, message)
 }
 
-func vRD_ptell(x *producerController, ctx *ReceiveContext, to *PID, message any) { vRD_record(to, message) }
-func vRD_ctell(x *consumerController, ctx *ReceiveContext, to *PID, message any) { vRD_record(to, message) }
+func vRD_ptell(x *producerController, ctx *ReceiveContext, to *PID, message any) {
+	vRD_record(to, message)
+}
+func vRD_ctell(x *consumerController, ctx *ReceiveContext, to *PID, message any) {
+	vRD_record(to, message)
+}
 func vRD_wtell(x *workPullingProducerController, ctx *ReceiveContext, to *PID, message any) {
 	vRD_record(to, message)
 }
 
 // substituted for (*ReceiveContext).Shutdown / Watch / UnWatch
-func vRD_shutdown(rctx *ReceiveContext)       { vRD_shutdowns++ }
+func vRD_shutdown(rctx *ReceiveContext)        { vRD_shutdowns++ }
 func vRD_watch(rctx *ReceiveContext, p *PID)   { vRD_watched = append(vRD_watched, p) }
 func vRD_unwatch(rctx *ReceiveContext, p *PID) { vRD_unwatched = append(vRD_unwatched, p) }
 
@@ -117,4 +121,73 @@ func vRD_noOverlap(a, b []*commands.SequencedMessage) bool { return false }
 // substituted for context.WithTimeout (the lookup deadline plays no role in the model)
 func vRD_withTimeout(ctx context.Context, d time.Duration) (context.Context, context.CancelFunc) {
 	return ctx, func() {}
+}
+
+var vRD_ids = [4]string{"m0", "m1", "m2", "m3"}
+
+// an arbitrary volatile producer-controller state satisfying the representation invariant
+//
+//	0 <= confirmedSeq <= currentSeq, unconfirmed = the contiguous ascending sequences (confirmedSeq, currentSeq]
+//
+// handshake at rest is Idle, Credit or StoredAck (Store and Accept complete synchronously without a durable queue)
+func vRD_producerState(prod, cc *PID) *producerController {
+	x := &producerController{producer: prod, consumerName: "consumer", retryInterval: time.Second, queueRetryAttempts: 1,
+		queueRetryBackoff: time.Second, sessionID: "S", generation: 1}
+	x.deliveryConfirmation = vNondetBool("deliveryConfirmation")
+	if vNondetBool("registered") {
+		x.consumerController = cc
+		x.registrationNonce = "N"
+	}
+	confirmed := vNondetInt64("confirmedSeq")
+	n := vNondetInt("unconfirmedLen")
+	vAssume(confirmed >= 0 && confirmed < 1<<62 && n >= 0 && n <= 3)
+	x.confirmedSeq = confirmed
+	x.persistedConfirmedSeq = confirmed
+	x.currentSeq = confirmed + int64(n)
+	for i := 0; i < n; i++ {
+		x.unconfirmed = append(x.unconfirmed, UnconfirmedMessage{messageID: vRD_ids[i], seq: confirmed + 1 + int64(i),
+			payload: ReliablePayload{bytes: []byte{vNondetByte("payload")}}})
+	}
+	x.demandUpTo = vNondetInt64("demandUpTo")
+	x.windowSpan = vNondetInt64("windowSpan")
+	vAssume(x.demandUpTo >= 0 && x.windowSpan >= 0)
+	switch vChoose("handshake", 3) {
+	case 1:
+		x.handshake = producerHandshakeCredit
+		x.token = "T"
+	case 2:
+		vAssume(x.currentSeq >= 1)
+		x.handshake = producerHandshakeStoredAck
+		x.token = "T"
+		x.pendingSeq = x.currentSeq
+		if n >= 1 {
+			// the pending message is the latest stored one and still unconfirmed
+			x.pendingMessageID = x.unconfirmed[n-1].messageID
+			x.pendingPayload = x.unconfirmed[n-1].payload
+		} else {
+			// resent on a timeout request and already confirmed before its StoredAck arrived
+			x.pendingMessageID = vRD_ids[vChoose("pendingID", 4)]
+			x.pendingPayload = ReliablePayload{bytes: []byte{vNondetByte("pendingPayload")}}
+		}
+		x.storedMessage = &Stored{sessionID: "S", token: "T", messageID: x.pendingMessageID, seq: x.pendingSeq, endpoint: prod, controller: prod}
+	}
+	if vNondetBool("hasCompleted") {
+		x.lastCompletedToken = "T0"
+		x.lastCompletedMessageID = vRD_ids[vChoose("completedID", 4)]
+	}
+	return x
+}
+
+func vRD_str2(name, a, b string) string {
+	if vNondetBool(name) {
+		return a
+	}
+	return b
+}
+
+func vRD_pick(c bool, a, b string) string {
+	if c {
+		return a
+	}
+	return b
 }
